@@ -200,6 +200,10 @@ func init() {
 			kc2, err2 := key_certificate.KeyCertificateFromCertificate(c)
 			if (err == nil) != (err2 == nil) || (err == nil && (obs(kc) != obs(kc2) || !bytes.Equal(rem, rem2))) {
 				fails = append(fails, fail("C19", "twin:NewKeyCertificate/FromCertificate", "differ on %s", trunc(a[0], 60)))
+				if err == nil && err2 == nil && (kc.SigningPublicKeySize() != kc2.SigningPublicKeySize() || kc.SignatureSize() != kc2.SignatureSize() || kc.CryptoSize() != kc2.CryptoSize()) {
+					fails = append(fails, fail("C10", "lookup-route:KeyCertificateFromCertificate", "the sizes a key certificate reports depend on the route it was built by (bytes: %d/%d/%d, certificate: %d/%d/%d) for %s",
+						kc.SigningPublicKeySize(), kc.SignatureSize(), kc.CryptoSize(), kc2.SigningPublicKeySize(), kc2.SignatureSize(), kc2.CryptoSize(), trunc(a[0], 40)))
+				}
 			}
 		} else if err == nil {
 			fails = append(fails, fail("C19", "twin:NewKeyCertificate/FromCertificate", "NewKeyCertificate accepts what ReadCertificate rejects: %s", trunc(a[0], 60)))
